@@ -18,8 +18,8 @@ import tempfile
 SRC = "/repo/src/jasm"
 FILEMAP = {
     "global_definitions.py": ["C01", "C02", "C04", "C05", "C07", "C10", "C14", "C17", "C18"],
-    "mnemonic_and_operand.py": ["C01", "C02", "C07"],
-    "node_branch_root.py": ["C02", "C03", "C04"],
+    "mnemonic_and_operand.py": ["C01", "C02", "C05", "C07"],
+    "node_branch_root.py": ["C02", "C03", "C04", "C05"],
     "time_type_builder.py": ["C02"],
     "pattern_node_builder.py": ["C02", "C03", "C17"],
     "ast_builder.py": ["C03", "C04", "C05", "C06", "C17"],
